@@ -139,6 +139,18 @@ let check inp obs =
   let step = ref 0 in
   let version = List.hd (split_ws inp) in
   Hashtbl.replace tags ("v" ^ version) ();
+  (* mutation paths exercised between stores (from the input ops) *)
+  (let stored = ref false and unstored_snapshot = ref false in
+   List.iter (fun op ->
+       let k = (match String.index_opt op ':' with Some i -> String.sub op 0 i | None -> op) in
+       match k with
+       | "S" -> stored := true; unstored_snapshot := false
+       | "N" -> unstored_snapshot := true; Hashtbl.replace tags "path-snapshot-without-store" ()
+       | "D" -> if !stored then Hashtbl.replace tags "path-delete-after-store" ();
+         if !unstored_snapshot then Hashtbl.replace tags "path-delete-after-unstored-snapshot" ()
+       | "X" -> if !stored then Hashtbl.replace tags "path-clearprefix-after-store" ()
+       | "P" -> if !unstored_snapshot then Hashtbl.replace tags "path-put-after-unstored-snapshot" ()
+       | _ -> ()) (List.tl (split_ws inp)));
   while peek c = "S" do
     incr step;
     let sn = Printf.sprintf "S%d" !step in
@@ -218,7 +230,8 @@ let check inp obs =
       if ps <> [] then Hashtbl.replace tags "discipline-clean-parts" ();
       List.iter (fun ((r, tn) as p) ->
           let ok = pneeds hash_memo p = [] || List.mem p !persisted || ((not r) && List.mem (true, tn) !persisted) in
-          if not ok then mbad "contract: a clean node was not persisted earlier in the history") ps;
+          (* evaluated on the tree the implementation handed to WriteDirty: a property failure *)
+          if not ok then pbad "a clean node of the trie handed to WriteDirty was never persisted (Dirty-flag contract)") ps;
       persisted := all_sub true (erase w) @ !persisted;
       fst (write_dirty_node hash_memo true dcur w) in
     ignore (List.fold_left check_hyp !db ((match t with Some w -> [w] | None -> []) @ wchildren));
